@@ -370,6 +370,7 @@ class Gen:
             saved = dict(self.vars)
             if self.chance(0.6):
                 pv = self.fresh("blk")
+                self.names.setdefault("pattern", []).append(pv)
                 self.vars[pv] = "?"
                 head = "in %s => %s" % (c, pv)
                 pre = [{"t": "dbtp %s" % pv}] if self.want_dbtp else []
@@ -379,9 +380,32 @@ class Gen:
             b = pre + self.body(depth + 1, n=self.i(1, 2))
             self.vars = {k2: (saved[k2] if self.vars.get(k2) == saved[k2] else "?") for k2 in saved}
             node["m"].append([head, b])
-        if self.chance(0.5):
+        k = self.i(0, 9)
+        if k < 4:
             node["m"].append(["else", self.body(depth + 1, n=1)])
-        return [node]
+        elif k < 7:
+            # bare name pattern: binds whatever is left
+            saved = dict(self.vars)
+            pv = self.fresh("blk")
+            self.names.setdefault("pattern", []).append(pv)
+            self.vars[pv] = "?"
+            b = ([{"t": "dbtp %s" % pv}] if self.want_dbtp else []) + self.body(depth + 1, n=1)
+            self.vars = {k2: (saved[k2] if self.vars.get(k2) == saved[k2] else "?") for k2 in saved}
+            node["m"].append(["in %s" % pv, b])
+        out = [node]
+        arrs = [a for a, t in self.vars.items() if t in (AI, AS, AIS)]
+        if arrs and self.chance(0.4):
+            # array pattern: the names bind the elements
+            a = self.pick(arrs)
+            saved = dict(self.vars)
+            p1, p2 = self.fresh("blk"), self.fresh("blk")
+            self.names.setdefault("pattern", []).extend([p1, p2])
+            self.vars[p1] = self.vars[p2] = "?"
+            form = self.pick(["in [%s, %s]", "in [%s, *%s]", "in Array(%s, %s)"]) % (p1, p2)
+            b = ([{"t": "dbtp %s" % p1}] if self.want_dbtp else []) + self.body(depth + 1, n=1)
+            self.vars = {k2: (saved[k2] if self.vars.get(k2) == saved[k2] else "?") for k2 in saved}
+            out.append({"h": "case %s" % a, "b": [], "m": [[form, b]], "e": "end"})
+        return out
 
     def def_node(self, depth, static=False, in_class=False):
         name = self.fresh("method")
